@@ -737,7 +737,8 @@ func TestEdDSA(t *testing.T) {
 	rec.SetRule(rule)
 	names := []string{"bn254", "bn254", "bls12-381"}
 	if ev.Tier() == "thorough" {
-		names = append(names, teNames...)
+		// every companion curve the gadget's Assign helpers support (Bandersnatch is not)
+		names = append(names, "bls12-381", "bls12-377", "bw6-761", "bls24-315", "bls24-317", "bw6-633")
 	}
 	g := genEdDSA(names)
 	checkSerial(rec, t, "eddsa", ev.N(60, 1500), func(rt *rapid.T) {
